@@ -42,6 +42,10 @@ type bookCase struct {
 	Procs      []int      `json:"gomaxprocs"`
 	WithSearch bool       `json:"with_search"`
 	SearchPly  int        `json:"search_after_plies,omitempty"` // a second search after this many moves of the first game (its leaf included)
+	// OneLinePad > 0: PGN move sections are written on ONE line (as many exporters do), every move followed by a
+	// brace comment of this many characters, so that physical lines are tens of kilobytes long and the block
+	// boundaries of a buffered reader (4096, 8192 ...) fall inside move tokens
+	OneLinePad int `json:"pgn_one_line_comment_pad,omitempty"`
 }
 
 type bookModel struct {
@@ -168,10 +172,26 @@ func renderBook(c bookCase, format openingbook.BookFormat) string {
 			if c.Decor > 0 && gi%3 == 0 {
 				sb.WriteString("% an escaped line 1. a4 a5\n")
 			}
-			sb.WriteString(numbered(toks, c.Numbering, true, c.Decor) + " " + res + "\n\n")
+			if c.OneLinePad > 0 {
+				sb.WriteString(oneLine(toks, c.OneLinePad+gi) + " " + res + "\n\n")
+			} else {
+				sb.WriteString(numbered(toks, c.Numbering, true, c.Decor) + " " + res + "\n\n")
+			}
 		}
 	}
 	return sb.String()
+}
+
+// oneLine renders a PGN move section on a single physical line, a brace comment of pad characters after every move.
+func oneLine(toks []string, pad int) string {
+	var sb strings.Builder
+	for i, t := range toks {
+		if i%2 == 0 {
+			fmt.Fprintf(&sb, "%d. ", i/2+1)
+		}
+		sb.WriteString(t + " {" + strings.Repeat("lorem ipsum ", pad/12+1)[:pad] + "} ")
+	}
+	return strings.TrimSpace(sb.String())
 }
 
 // numbered renders SAN tokens with move numbers; PGN decorations by level.
@@ -888,6 +908,13 @@ func TestC19(t *testing.T) {
 	hx.Sub(r, "plain", r.N(150, 1500)/div, gen(0, true, 40), propC19)
 	hx.Sub(r, "pgn-decorated", r.N(120, 1200)/div, gen(1, true, 25), propC19)
 	hx.Sub(r, "pgn-hostile-decorated", r.N(60, 600)/div, gen(2, false, 12), propC19)
+	// PGN with one-line move sections of 5-60 kB (below the 64 kB line limit of the engine's reader)
+	hx.Sub(r, "pgn-one-line", r.N(40, 400)/div, func(t *rapid.T) bookCase {
+		c := gen(1, false, 6)(t)
+		c.WithSearch = false
+		c.OneLinePad = rapid.IntRange(150, 1900).Draw(t, "pad")
+		return c
+	}, propC19)
 	// large books of many short lines (tens of thousands of goroutine tasks touching the same few entries):
 	// a rare lost update in the parallel build (one in ten thousand lines) only shows here
 	hx.Sub(r, "many-lines", r.N(1, 7)/div+1, func(t *rapid.T) bookCase {
